@@ -25,6 +25,12 @@
                                              (each evaluated anew for every record, the record in scope: correlation)
            | SO U|E|I all Plan Plan          UNION / EXCEPT / INTERSECT [ALL]
            | JL kind Plan Plan JC            LATERAL: the right plan is evaluated for every left record
+           | JLX jt dir Plan Plan JC         LATERAL with the join as written: jt := N | C | I | O (nothing / CROSS / INNER /
+                                             OUTER), dir := N | L | R | F; `FROM t, LATERAL (…)` is `JLX C N`; evaluated by
+                                             Model/Lateral.lean (`latRun` over the worker chunks, `latJoinOne` per record);
+                                             RIGHT / FULL: `ELAT`
+           | QA fn arg out Plan Where        SELECT fn(arg) AS out FROM Plan WHERE …  (no GROUP BY: exactly one record);
+                                             fn := CNT | MAX | MIN, arg := * | r view|- name
   kind    := C | I | L | R | F
   JC      := - | O Cond | U n (li ri)*          (li / ri: column index in the left / right operand)
            | UN n name… | NA                  (USING by names / NATURAL: the model resolves the names itself)
@@ -45,6 +51,8 @@
 import Csvq.Model.Proto
 import Csvq.Model.Rel
 import Csvq.Model.Keys
+import Csvq.Model.Lateral
+import Csvq.Model.Aggregate
 namespace Csvq.Drive.C03
 open Csvq Csvq.Proto Csvq.Rel
 
@@ -70,6 +78,16 @@ inductive Sel
   | idxs (l : List Nat)
   | items (l : List SelItem)
 
+/-- the aggregate functions of generated sub-queries -/
+inductive AggFn | count | max | min
+  deriving DecidableEq, Repr
+
+/-- COUNT / MAX / MIN as C04 models them (Model/Aggregate.lean), the result as a cell -/
+def aggOf : AggFn → List Profile → Profile
+  | .count, l => profileOf (.int (Agg.count l))
+  | .max, l => (Agg.maxAgg l).getD nullP
+  | .min, l => (Agg.minAgg l).getD nullP
+
 /-- a named table of the session: name, index of its contents, column names -/
 abbrev NamedTbl := String × Nat × List String
 
@@ -80,7 +98,8 @@ inductive Plan
   | join (k : JKind) (l r : Plan) (jc : JCond)
   | query (subs : List Plan) (src : Plan) (wh : Option CondE) (sel : Sel)
   | setop (op : SetOp) (all : Bool) (l r : Plan)
-  | lateral (k : JKind) (l r : Plan) (jc : JCond)
+  | lateral (jt : JType) (dir : JDir) (l r : Plan) (jc : JCond)
+  | aggq (fn : AggFn) (arg : Option (Option String × String)) (out : String) (src : Plan) (wh : Option CondE)
   | alias (a : String) (names : List String) (p : Plan)
   | session (temps files : List NamedTbl) (p : Plan)
   | withC (name : String) (cols : List String) (defn body : Plan)
@@ -387,7 +406,46 @@ def pPlan (vals : Array Profile) : Nat → P Plan
         let (l, ts) ← pPlan vals f ts
         let (r, ts) ← pPlan vals f ts
         let (jc, ts) ← pJCond vals f ts
-        pure (.lateral k l r jc, ts)
+        let (jt, dir) := (match k with
+          | .cross => (JType.cross, JDir.absent)
+          | .inner => (JType.inner, JDir.absent)
+          | .left => (JType.absent, JDir.left)
+          | .right => (JType.absent, JDir.right)
+          | .full => (JType.absent, JDir.full))
+        pure (.lateral jt dir l r jc, ts)
+      | [] => none
+    | "JLX" =>
+      match ts with
+      | jt :: dir :: ts => do
+        let jt ← (match jt with
+          | "N" => some JType.absent | "C" => some JType.cross | "I" => some JType.inner | "O" => some JType.outer
+          | _ => none)
+        let dir ← (match dir with
+          | "N" => some JDir.absent | "L" => some JDir.left | "R" => some JDir.right | "F" => some JDir.full
+          | _ => none)
+        let (l, ts) ← pPlan vals f ts
+        let (r, ts) ← pPlan vals f ts
+        let (jc, ts) ← pJCond vals f ts
+        pure (.lateral jt dir l r jc, ts)
+      | _ => none
+    | "QA" =>
+      match ts with
+      | fn :: ts => do
+        let fn ← (match fn with
+          | "CNT" => some AggFn.count | "MAX" => some AggFn.max | "MIN" => some AggFn.min | _ => none)
+        let (arg, ts) ← (match ts with
+          | "*" :: ts => some (none, ts)
+          | "r" :: v :: name :: ts => some (some ((if v = "-" then none else some v), name), ts)
+          | _ => none)
+        match ts with
+        | out :: ts => do
+          let (src, ts) ← pPlan vals f ts
+          let (wh, ts) ← (match ts with
+            | "-" :: ts => some (none, ts)
+            | "W" :: ts => (pCond vals f ts).map (fun (c, ts) => (some c, ts))
+            | _ => none)
+          pure (.aggq fn arg out src wh, ts)
+        | [] => none
       | [] => none
     | _ => none
   | _, [] => none
@@ -581,14 +639,52 @@ def eval : Nat → Env → Plan → Except String (Hdr × List Row)
     let (lh, L) ← eval fuel env l
     let (rh, R) ← eval fuel env r
     joinCore env kind lh L rh R jc
-  | .lateral kind l r jc => do
-    -- loadView, LATERAL: for every left record the right side is evaluated with the record in scope and joined
-    -- with the one-record view; the header is the one of the FIRST record's join (none when there is no record)
+  | .lateral jt dir l r jc => do
+    -- loadView, LATERAL (Model/Lateral.lean): the left records are cut into worker chunks; for every record the right
+    -- side is evaluated with the record in scope and joined with the one-record view (`latJoinOne`: the join functions
+    -- of the plain joins); header = the one of record 0's join (none when there is no record), slots in record order
     let (lh, L) ← eval fuel env l
-    let parts ← L.mapM (fun lrow => do
+    if lateralRejects dir then throw "ELAT" else
+    let lw := lh.length
+    let fn : Row → Except String (Hdr × List Row) := fun lrow => do
       let (rh, R) ← eval fuel { env with outer := (lh, lrow) :: env.outer } r
-      joinCore env kind lh [lrow] rh R jc)
-    pure ((match parts with | [] => [] | p :: _ => p.1), (parts.map (fun p => p.2)).flatten)
+      match jc with
+      | .usingNames _ | .natural | .using _ =>
+        -- USING / NATURAL: the column merge of joinViews after the join (joinCore)
+        let kind := (match joinDispatchOf (joinTypeOf jt dir) with
+          | some .cross => JKind.cross
+          | some .outer => JKind.left
+          | _ => JKind.inner)
+        joinCore env kind lh [lrow] rh R jc
+      | _ =>
+        let ce : Option CondE := (match jc with
+          | .on c => some (resolveCondEnv (lh ++ rh) env.outer c)
+          | _ => none)
+        match ce with
+        | some c =>
+          if !condPure c then
+            match firstErr lw c (R.map (fun rr => lrow ++ rr)) with
+            | some e => throw (errStr e)
+            | none => pure ()
+          else pure ()
+        | none => pure ()
+        let cond : Option Cond := ce.map (fun ce =>
+          if condPure ce then fun row => evalCond lw row ce
+          else fun row => match evalCondE noSubs lw row ce with | .ok t => t | .error _ => .U)
+        pure (lh ++ rh, (latJoinOne ⟨jt, dir, cond⟩ lw lrow (rh.length, R)).2)
+    latRun (η := Hdr) [] (chunkN env.w L) fn
+  | .aggq fn arg out src wh => do
+    -- an aggregate select list without GROUP BY: the records that pass the WHERE form ONE group, also when there is
+    -- none (Model/Lateral.lean `aggQuery`)
+    let (h, rows) ← eval fuel env (.query [] src wh .star)
+    let argFn : Row → Profile ← (match arg with
+      | none => pure (fun _ => profileOf (.int 1))            -- COUNT(*): every record counts
+      | some (v, n) =>
+        match fieldIndex h v n with
+        | .ok i => pure (fun (r : Row) => (r[i]?).getD nullP)
+        | .error e => throw (errStr e))
+    let res := aggQuery (aggOf fn) argFn rows
+    pure ([{ view := "", name := out, isJoin := false }], res.2)
   | .setop op all l r => do
     let (lh, A) ← eval fuel env l
     let (rh, B) ← eval fuel env r
